@@ -167,25 +167,20 @@ lg_ret(Run *r, int ret, const CErr *err, int null_err)
         lg8(r, 0xfe);
         return;
     }
-    if (null_err == 2) {
-        /* a failure with no native counterpart (text that is not UTF-8): a description must be
-         * retrievable, its wording is the implementation's business */
+    /* The property promises "-1 and a retrievable NUL-terminated description": that is what is recorded (1 =
+     * non-empty and terminated within 1024 bytes). The wording is the implementation's business: a wrapper may
+     * well notice a different one of two simultaneous defects than the native call does. */
+    {
         const char *d = (ret == -1 && err) ? r->t->error_description(err) : NULL;
-        lg8(r, 0xfd);
-        lg8(r, (d != NULL && d[0] != 0) ? 1 : 0);
-        return;
-    }
-    if (ret == -1) {
-        const char *d = err ? r->t->error_description(err) : NULL;
         size_t      n = 0;
         if (d != NULL) {
             while (n < 1024 && d[n] != 0) {
                 n++;
             }
         }
-        lg16(r, (uint16_t) n);
-        if (d != NULL) {
-            lg(r, d, n);
+        if (ret == -1) {
+            lg8(r, 0xfd);
+            lg8(r, (d != NULL && n > 0 && n < 1024) ? 1 : 0);
         }
     }
 }
